@@ -409,6 +409,7 @@ def normalise(F, fn, keep=(), depth=3, _stack=()):
         resolve_fn_pointers(F, B, fn.crate)
         thread_try(B)
         thread_bool(B)
+        thread_variant(B)
     out = facts.Fn(B.raw, fn.crate)
     out.inlined_ids = tuple(B.ids)
     return out
@@ -592,6 +593,82 @@ def thread_bool(B):
                         work.append((pidx, cur2, [pidx] + chain))
                     continue
                 side = tmap.get(val, sw.get("otherwise"))
+                if not isinstance(side, int):
+                    continue
+                nxt = B.block(list(sb["stmts"]), {"k": "goto", "target": side, "loc": sw["loc"]})
+                for cidx in reversed(chain):
+                    cb = blocks[cidx]
+                    nxt = B.block(list(cb["stmts"]), {"k": "goto", "target": nxt, "loc": cb["term"]["loc"]})
+                pt = dict(pb["term"])
+                pt["target"] = nxt
+                pb["term"] = pt
+                done += 1
+    return done
+
+
+def thread_variant(B):
+    """The same for a plain `match` / `if let` on a value a combinator put in place has just built: `xs.iter().find(p)` as a loop
+    writes `R = Some(x)` where the predicate held and `R = None` when the items ran out, and the caller's `if let Some(other) = R`
+    switches on R's discriminant.  Each write of a known variant gets its own copy of the (value-preserving) blocks up to that
+    switch, ending in the jump the variant takes."""
+    blocks = B.raw["blocks"]
+    n0 = len(blocks)
+    preds = {}
+    for i, b in enumerate(blocks):
+        t = b["term"]
+        if t and t["k"] == "goto" and isinstance(t.get("target"), int):
+            preds.setdefault(t["target"], []).append(i)
+    done = 0
+    for sidx in range(n0):
+        sb = blocks[sidx]
+        sw = sb["term"]
+        if not sw or sw["k"] != "switch" or sb["cleanup"]:
+            continue
+        d = place_of(sw["discr"])
+        if d is None or d["p"]:
+            continue
+        dst = [st for st in sb["stmts"] if st.get("k") == "assign" and st["place"]["l"] == d["l"] and st["rv"].get("k") == "discr"]
+        if len(dst) != 1 or dst[0]["rv"]["place"]["p"] or not dst[0]["rv"].get("variants"):
+            continue
+        r0 = dst[0]["rv"]["place"]["l"]
+        if any(st.get("k") == "assign" and st["place"]["l"] == r0 for st in sb["stmts"]):
+            continue
+        val_of = {name: v for v, name in dst[0]["rv"]["variants"]}
+        tmap = dict((v, tb) for v, tb in sw["targets"])
+        work = [(sidx, r0, [])]
+        seen = set()
+        while work:
+            blk, r, chain = work.pop()
+            for pidx in preds.get(blk, []):
+                if (pidx, r) in seen or len(chain) > 3 or pidx >= n0:
+                    continue
+                seen.add((pidx, r))
+                pb = blocks[pidx]
+                cur = r
+                var = None
+                ok = True
+                for st in reversed(pb["stmts"]):
+                    if st.get("k") != "assign" or st["place"]["l"] != cur:
+                        continue
+                    if st["place"]["p"]:
+                        ok = False
+                        break
+                    rv = st["rv"]
+                    if rv.get("k") == "agg" and rv.get("agg") == "adt" and rv.get("variant") in val_of:
+                        var = rv["variant"]
+                        break
+                    if rv.get("k") == "use" and place_of(rv["a"]) is not None and not place_of(rv["a"])["p"]:
+                        cur = place_of(rv["a"])["l"]
+                        continue
+                    ok = False
+                    break
+                if not ok:
+                    continue
+                if var is None:
+                    if all(st.get("k") != "assign" or (st["rv"].get("k") == "use" and not st["place"]["p"]) for st in pb["stmts"]):
+                        work.append((pidx, cur, [pidx] + chain))
+                    continue
+                side = tmap.get(val_of[var], sw.get("otherwise"))
                 if not isinstance(side, int):
                     continue
                 nxt = B.block(list(sb["stmts"]), {"k": "goto", "target": side, "loc": sw["loc"]})
